@@ -208,7 +208,24 @@ def check(ctx):
     def minimal(cs):
         return {c_ for c_ in cs if not any(o_ < c_ for o_ in cs)}
     ok = got is not None and minimal(got) == want
-    ctx.instance('C11.R1', 'is_in_range: (no lower or v >= min) and (no upper or v <= max)', 'ok' if ok else ('undecided' if got is None else 'VIOLATION'), node=f, file=CC)
+    # decided by evaluation first (the checker's own evaluator on a grid of bounds and values); the case comparison is the fall-back
+    from .. import evalexpr as _ev
+    grid_ok, n_grid = True, 0
+    vp_ = [x_ for x_ in flow.param_names(f) if x_ != 'self'][0]
+    try:
+        for lo_ in ('MIN', -5, 0, 3):
+            for hi_ in ('MAX', 3, 4, 10):
+                for v_ in (-6, -5, -4, -1, 0, 1, 2, 3, 4, 5, 9, 10, 11, 2 ** 70, -2 ** 70):
+                    r_, _e = _ev.run_function(f, {vp_: v_, 'self.minimum': lo_, 'self.maximum': hi_})
+                    n_grid += 1
+                    if bool(r_) != ((lo_ == 'MIN' or v_ >= lo_) and (hi_ == 'MAX' or v_ <= hi_)):
+                        grid_ok = False
+        ok = grid_ok
+        got = got if got is not None else set()
+    except (_ev.Unsupported, _ev.Raised):
+        n_grid = 0
+    ctx.instance('C11.R1', 'is_in_range: (no lower or v >= min) and (no upper or v <= max)%s' % (' [evaluated on %d (bounds, value) cases]' % n_grid if n_grid else ''),
+                 'ok' if ok else ('undecided' if got is None else 'VIOLATION'), node=f, file=CC)
     if not ok and got is not None:
         ctx.violation('C11.R1', CC, f, 'constraints_checker.Type.is_in_range', 'bound comparison changed (must be inclusive on both ends and conjunctive)', stmt='is_in_range')
     for nm, const in (('has_lower_bound', 'MIN'), ('has_upper_bound', 'MAX')):
